@@ -72,8 +72,11 @@ def spec(tier):
     for i in range(3 if quick else 12):
         jobs.append(Job("hooks", "h_duplex", ["--mode=siblings", "--trials=%d" % (2 * nd), "--first=%d" % (85000 + i * 2 * nd), "--perturb=hot", "--hot-func=_dispatch_lane_suspend"],
                         timeout=T, tag="h_duplex:siblings:hot-suspend:%d" % i))
+    # the library's own assertions and debug logging (DISPATCH_DEBUG) as the oracle; the second job abandons a derived channel
+    # in every create_with_io trial (F37: the creation block logged the new channel after dropping its reference to it)
+    add("default", 1 if quick else 20, 100 if quick else 500, flavor="dbg", extra=BULK, timeout=T)
+    jobs.append(hio("default", 60 if quick else 400, first=970000, flavor="dbg", extra=["--force-abandoned=1"], timeout=T, tag="h_io:abandoned-derived:dbg"))
     if not quick:
-        add("default", 20, 500, flavor="dbg", extra=BULK, timeout=1800)
         add("default", 10, 300, flavor="asan", ncpu=2, extra=BULK, timeout=1800)
     k = 1 if quick else 200
     floors = {
